@@ -76,10 +76,26 @@ func genStructs(t *rapid.T) Case {
 		} else {
 			probe = genElem(t)
 		}
+		if rapid.IntRange(0, 3).Draw(t, "nearMiss") == 0 {
+			// a list element next to the same list with trailing elements whose hash is 0 (or without its last
+			// element): only one of the two is in the list
+			short := val.L(genElems(t, 0, 2)...)
+			long := val.L(append(append([]val.V{}, short.E...), rapid.SampledFrom([][]val.V{{val.I(0)}, {val.L()}, {val.M()}, {val.I(0), val.I(0)}, {val.L(val.I(0))}}).Draw(t, "padding")...)...)
+			if rapid.Bool().Draw(t, "probeLong") {
+				short, long = long, short
+			}
+			es = append(es, short)
+			probe = long
+		}
 		c.Args = []val.V{val.L(es...), probe}
 	case "s.map", "s.struct":
 		isStruct := law == "s.struct"
+		// a quarter of the maps are keyed by numbers of both signs (a scan that orders keys must agree with itself)
+		numericKeys := !isStruct && rapid.IntRange(0, 3).Draw(t, "numericKeys") == 0
 		genKey := func() val.V {
+			if numericKeys {
+				return val.I(rapid.SampledFrom([]int64{-1, -2, -7, 0, 1, 2, 7, math.MinInt64, math.MaxInt64, -4294967296, 4294967296}).Draw(t, "numKey"))
+			}
 			if isStruct {
 				if rapid.Bool().Draw(t, "stocklabel") {
 					return val.N(rapid.SampledFrom([]string{"/a", "/b", "/foo", "/foo/bar", "/foobar"}).Draw(t, "label"))
